@@ -73,6 +73,13 @@ package main
 // same entry at the same time, every line compared with the line the same call produces alone, and a
 // directed stage that sets the number of Ps before the history (sync.Pool forgets on a change).
 
+//
+// NESTED METADATA.  The console encoder's pooled column collector is a full ArrayEncoder: user-supplied
+// EncodeTime / EncodeLevel / EncodeCaller / EncodeName may record nested arrays / objects in it (the only way
+// to sliceArrayEncoder.AppendArray / AppendObject).  c08_nested.go: configurations with such callbacks (which
+// also do the activity of the observation, like a sink), two probes with a flat twin as oracle, history
+// operation kind 22, four more workers of the concurrent burst.
+
 import (
 	"bytes"
 	"context"
@@ -981,11 +988,14 @@ func c08Probes(seed uint64) []*c08Probe {
 	// several goroutines, each with a logger, sinks and a call site of its own, logging the same entry at the
 	// same time (c08_burst.go)
 	c08BurstProbes(add)
+	// metadata callbacks that record nested arrays / objects in the console encoder's pooled column collector,
+	// each with a flat twin as its oracle (c08_nested.go)
+	c08NestedProbes(seed, add)
 	return ps
 }
 
 // ---------- history operations ----------
-const c08NKinds = 22 // 16..19: oversize operations (c08_huge.go); 20: a long-lived logger family (c08_family.go); 21: an edge prelude (c08_burst.go)
+const c08NKinds = 23 // 16..19: oversize operations (c08_huge.go); 20: a long-lived logger family (c08_family.go); 21: an edge prelude (c08_burst.go); 22: nested metadata (c08_nested.go)
 
 // executes one history operation; returns its abstraction and a class letter.  Its sinks and hooks
 // are retired when it is over; whatever reached a retired sink / hook meanwhile is unexpected.
@@ -1209,6 +1219,9 @@ func c08HistOp1(sc *c08Scope, r *RNG, kind int) (desc SX, class string, unexpect
 		return fd, fc, unexpected
 	case c08KEdge: // a logger whose caller skip lies beyond the stack logs 1..64 entries, maybe one GC (c08_burst.go)
 		return c08EdgeHistOp(sc, r, a, b, quiet)
+	case c08KNested: // other loggers' entries whose metadata callbacks record nested arrays / objects (c08_nested.go)
+		nd, nc := c08NestedHistOp(sc, r, a, b, c, d, e, f, quiet)
+		return nd, nc, unexpected
 	case c08KHugeField, c08KHugeCtx, c08KHugeShape, c08KHugeDirect: // entries of 70 KiB .. 1 MiB (c08_huge.go)
 		hd, hc, hu := c08HugeOp(sc, r, kind, quiet)
 		if unexpected == "" {
@@ -1587,7 +1600,7 @@ func c08(c *Ctx) {
 					}
 					if p.label == c08BurstLabel && act == 0 && runtime.GOMAXPROCS(0) > 1 {
 						// several Ps since the beginning of this history: a burst of medium size
-						c08BurstPlan = &c08BurstCfg{g: 2 + r.Intn(7), n: 500 + r.Intn(1000), first: r.Intn(8)}
+						c08BurstPlan = &c08BurstCfg{g: 2 + r.Intn(7), n: 500 + r.Intn(1000), first: r.Intn(c08NWorkers)}
 					}
 					observe(p, hist, cls, cl2, act)
 					c08BurstPlan = nil
